@@ -1,5 +1,6 @@
 pub mod chunk;
 pub mod common;
+pub mod iofault;
 pub mod prog;
 
 use crate::runner::Scenario;
@@ -12,9 +13,10 @@ pub static APPEND: Roundtrip = Roundtrip { mode: Mode::C13 };
 pub static RAWCOPY: Roundtrip = Roundtrip { mode: Mode::C14 };
 pub static ALIGN: Roundtrip = Roundtrip { mode: Mode::C17 };
 pub static CHUNKING: chunk::Chunking = chunk::Chunking;
+pub static IOFAULT: iofault::IoFault = iofault::IoFault;
 
 pub fn all() -> Vec<&'static dyn Scenario> {
-    vec![&ROUNDTRIP, &ROUNDTRIP_FULL, &STATEMACHINE, &APPEND, &RAWCOPY, &ALIGN, &CHUNKING]
+    vec![&ROUNDTRIP, &ROUNDTRIP_FULL, &STATEMACHINE, &APPEND, &RAWCOPY, &ALIGN, &CHUNKING, &IOFAULT]
 }
 
 pub fn lookup(name: &str) -> Option<&'static dyn Scenario> {
@@ -36,6 +38,7 @@ pub fn props() -> Vec<PropCfg> {
         PropCfg { id: "C01", level: "exploration", scenarios: vec![&ROUNDTRIP], assumptions: vec![A_MODEL, A_CODEC] },
         PropCfg { id: "C02", level: "exploration", scenarios: vec![&ROUNDTRIP_FULL], assumptions: vec!["independent parser written from APPNOTE is the judge", A_CODEC, "literal 0xFFFF/0xFFFFFFFF without ZIP64 accepted"] },
         PropCfg { id: "C09", level: "exploration", scenarios: vec![&CHUNKING], assumptions: vec![A_CODEC, "the unfragmented (Pure policy) execution is the reference outcome"] },
+        PropCfg { id: "C11", level: "fault_enumeration", scenarios: vec![&IOFAULT], assumptions: vec![A_CODEC, "'identical to the failure-free run' is judged on entries/metadata/contents/comment, not on bytes (R7)", "programs end with an explicit finish(), so that no error is swallowed by Drop"] },
         PropCfg { id: "C12", level: "exploration", scenarios: vec![&STATEMACHINE], assumptions: vec![A_MODEL, A_CODEC, "after a failed state-changing call the model only constrains what the property states (R6)"] },
         PropCfg { id: "C13", level: "exploration", scenarios: vec![&APPEND], assumptions: vec![A_MODEL, A_CODEC, "the crate's own reading of a foreign base archive is the reference for 'unchanged' (reader fidelity is C03's job)"] },
         PropCfg { id: "C14", level: "exploration", scenarios: vec![&RAWCOPY], assumptions: vec![A_MODEL, A_CODEC, "source entries are described by the independent parser"] },
